@@ -60,7 +60,8 @@ pub fn format_program(program: &Program, source: &str) -> String {
         docs.push(trivia_doc(&trivia.dangling));
     }
     let doc = pretty::join(pretty::hardline(), docs);
-    collapse_blanks(&pretty::print(&doc, WIDTH))
+    let text = collapse_blanks(&pretty::print(&doc, WIDTH));
+    expand_literals(&text, &trivia.literals.borrow())
 }
 
 fn statement_doc(trivia: &Trivia, statement: &Statement) -> Doc {
@@ -558,14 +559,55 @@ fn multiline_string_doc(trivia: &Trivia, segments: &[StrSegment]) -> Doc {
         }
     }
 
-    let mut docs = vec![pretty::text("\"\"\"")];
-    for line in lines {
-        docs.push(pretty::hardline());
-        docs.push(pretty::text(protect_trailing_spaces(line)));
+    // The content is laid out as one placeholder line; `expand_literals` puts the real lines back
+    // (indented like the placeholder) once the text has been laid out and its blank lines collapsed.
+    let index = {
+        let mut literals = trivia.literals.borrow_mut();
+        literals.push(lines.into_iter().map(protect_trailing_spaces).collect());
+        literals.len() - 1
+    };
+    pretty::concat(vec![
+        pretty::text("\"\"\""),
+        pretty::hardline(),
+        pretty::text(literal_placeholder(index)),
+        pretty::hardline(),
+        pretty::text("\"\"\""),
+    ])
+}
+
+/// The stand-in line for the content of `"""` literal number `index`. It starts with a NUL, which no
+/// other laid-out line does (code, comments and string delimiters all start with a printable
+/// character), so a line is a placeholder exactly when its first non-space character is NUL.
+fn literal_placeholder(index: usize) -> String {
+    format!("\0{}", index)
+}
+
+/// Replace each placeholder line by the content lines of its literal, indented to the placeholder's
+/// own indentation (blank content lines stay empty).
+fn expand_literals(text: &str, literals: &[Vec<String>]) -> String {
+    let mut out = String::new();
+    for line in text.lines() {
+        let indent = line.len() - line.trim_start_matches(' ').len();
+        match line[indent..]
+            .strip_prefix('\0')
+            .and_then(|n| n.parse::<usize>().ok())
+        {
+            Some(index) => {
+                for content in &literals[index] {
+                    if !content.is_empty() {
+                        out.push_str(&line[..indent]);
+                        out.push_str(content);
+                    }
+                    out.push('\n');
+                }
+            }
+            None => {
+                out.push_str(line);
+                out.push('\n');
+            }
+        }
     }
-    docs.push(pretty::hardline());
-    docs.push(pretty::text("\"\"\""));
-    pretty::concat(docs)
+    out
 }
 
 /// Escape one text fragment of a multi-line string (no trailing-space handling — that is applied per
@@ -780,15 +822,21 @@ struct Trivia {
     leading: HashMap<usize, Vec<TriviaItem>>,
     trailing: HashMap<usize, Vec<String>>,
     dangling: Vec<TriviaItem>,
+    /// The content lines of every `"""` literal rendered so far. They are kept out of the laid-out
+    /// text (which holds a one-line placeholder instead) until after `collapse_blanks`, so that
+    /// neither the printer's trailing-whitespace stripping nor the blank-line collapsing can touch
+    /// the *value* of a string.
+    literals: std::rc::Rc<std::cell::RefCell<Vec<Vec<String>>>>,
 }
 
 impl Trivia {
-    /// A view with no comments or blank lines.
+    /// A view with no comments or blank lines (sharing the literal store).
     fn without_comments(&self) -> Trivia {
         Trivia {
             leading: HashMap::new(),
             trailing: HashMap::new(),
             dangling: Vec::new(),
+            literals: self.literals.clone(),
         }
     }
 
@@ -847,6 +895,7 @@ impl Trivia {
             leading,
             trailing,
             dangling,
+            literals: Default::default(),
         }
     }
 
